@@ -42,6 +42,18 @@ RULE = ("Case = one ray-transfer object (box: nx,ny,nz in 1..6, cells 0.05..2 m;
         "distinct by case hash. While the known finding C10-axis-hole-zero-row is open, rays of radius_inner = 0 cylinders that "
         "pass the axis closer than 10 radii of the artificial axis hole (1e-4 dr) are marked excluded_known by the generator "
         "and the oracle models that hole; once it is fixed the oracle expects no hole at radius_inner = 0. "
+        "Widening (all inside box / cyl): construction path = RayTransferBox / RayTransferCylinder (positional or keyword, ctor or "
+        "setters) or the documented lower-level path emitter class + own bounding primitive wrapped in RayTransferObject; "
+        "integrator options: step given to the constructor / rt.step / rt.material.integrator.step / a new "
+        "Cartesian- or CylindricalRayTransferIntegrator(step, min_samples) assigned afterwards, min_samples in {2, 3, 5, 40} "
+        "(n clamped by min_samples on short chords, step up to 6 cells), or raysect's NumericalIntegrator driving "
+        "emission_function (trapezium replica); argument forms: mask / voxel_map as bool, int32, int64, float64, Fortran-ordered "
+        "and strided views, scalars as float, int (where integer-valued) or numpy scalars; re-use: 0-2 changes of mask / "
+        "voxel_map / step / min_samples through the setters on the same object with two rays re-traced and re-checked against "
+        "the oracle after each, then the first configuration restored through the setters and the first ray traced again "
+        "(row must be bit-identical; every spectrum returned earlier still intact; getters read twice); caller-owned data: "
+        "the array passed in is bit-identical afterwards, and overwriting it afterwards changes neither voxel_map / bins nor "
+        "the traced row. While C10-fortran-voxel-map is open, voxel maps (not masks) are kept out of the Fortran layout. "
         "Sub-check pipelines: the same object generators + a pool of 6 generated rays; a RayTransferPipeline0D / 1D / 2D (kind "
         "power / radiance, sensitivity 1, 0.5, 2.5, pixel_samples 1..3, 0-D samples_per_task 1 or 250) on a SightLine / a minimal "
         "fixed-ray Observer1D (1..4 pixels) / a VectorCamera of shape (<=3, <=2) or (<=2, <=3); the SAME pipeline object is "
@@ -58,6 +70,8 @@ ASSUMPTIONS = ["raysect's Ray.trace / Box / Cylinder / Subtract are trusted: a v
                "the integration scheme anchored by the property: per volume segment n = max(2, int(length/step)) midpoint samples, "
                "dt = length/n, segment skipped when length < 0.1 step",
                "standard right-handed rotation matrices for raysect's rotate_x/y/z, translate",
+               "raysect's NumericalIntegrator: trapezium rule on max(min_samples - 1, floor(length/step)) equal intervals, end samples "
+               "weighted 1/2, only length == 0 skipped (read from raysect 0.8.1 source)",
                "pipelines: observers run with SerialEngine and spectral_rays = 1; every observer used launches pixel_samples "
                "identical rays per pixel (SightLine: its axis; VectorCamera: no jitter for edge pixels, so only images with "
                "min(shape) <= 2; 1-D: raysect ships no deterministic Observer1D, a 12-line Python subclass with fixed rays and "
@@ -84,6 +98,10 @@ TOLERANCES = {
                  "the upper bounds are demanded (label ray:ambiguous-segmentation); a ray whose origin lies within DELTA of a "
                  "primitive surface is only traced (exceptions count), raysect decides whether it starts inside",
     "merged map": "1e-9 (1 + L): same samples, only the order of the floating-point additions differs",
+    "repeat / caller-data": "bit-identical rows (same object, same configuration, same ray: the computation is deterministic)",
+    "trapezium replica (NumericalIntegrator + emission_function)": "as the midpoint replica with samples at j*h, h = length/intervals, "
+                 "weights 1/2 at both ends; the end samples lie on the primitive surface and count as possible only; statement-level "
+                 "bounds use dt = h (<= 2 step when the segmentation is ambiguous)",
     "pipelines": "1e-9 (1 + bounding radius) max(1, sensitivity): the pipeline adds pixel_samples identical spectra and divides by the "
                  "count; the rays are bit-identical to the directly traced ones",
     "midpoint replica": "entry = dt * (number of midpoint samples in the source) within 1e-9 (1 + L); samples closer to a piece boundary "
@@ -96,6 +114,14 @@ REQUIRED_LABELS = ["box:ray:edge", "box:ray:inside", "box:ray:axis", "box:ray:pl
                    "cyl:rmin=0", "cyl:map:merge", "pipelines:dim:0", "pipelines:dim:1", "pipelines:dim:2", "pipelines:power",
                    "pipelines:radiance", "pipelines:change:mask", "pipelines:change:map", "pipelines:change:place",
                    "pipelines:change:view", "pipelines:change:kind", "pipelines:change:samples"]
+# entry points / options of the three anchored files, each at least once per run and per grid type
+for _k in ("box", "cyl"):
+    REQUIRED_LABELS += [_k + ":" + lab for lab in (
+        "build:object", "build:emitter", "integ:plain", "integ:rt.step", "integ:integrator.step", "integ:new", "ms:2", "ms:3", "ms:40",
+        "n=min_samples", "scheme:midpoint", "scheme:trapezium", "form:c64", "form:i32", "form:f64", "form:strided", "form:fortran",
+        "scalars:float", "scalars:int", "scalars:numpy", "reuse:mask", "reuse:voxel_map", "reuse:step", "reuse:min_samples", "repeat",
+        "caller:poke", "via:ctor", "via:setter", "step:default", "map:none", "map:mask", "map:merge", "map:identity", "ray:z-parallel")]
+REQUIRED_LABELS += ["box:shape:nx!=ny!=nz"]
 
 FORTRAN = "C10-fortran-voxel-map"        # open: a Fortran-ordered / transposed voxel_map is rejected and corrupts the object
 AXIS_HOLE = "C10-axis-hole-zero-row"     # open: radius_inner = 0 still gets an inner bounding cylinder of radius 1e-5 dr
@@ -827,7 +853,12 @@ def run_pipe(case, ctx):
     vm, mask, vmap = _voxel_arrays(obj, grid.shape)
     with ctx.cut("construct"):
         world, rt = _build(cls, args, obj["step"] is not None, step, mask, vmap, obj["via"], obj["place"])
-        pipe = [RayTransferPipeline0D, RayTransferPipeline1D, RayTransferPipeline2D][dim](kind=case["kind"])
+        pcls = [RayTransferPipeline0D, RayTransferPipeline1D, RayTransferPipeline2D][dim]
+        pipe = pcls("row-%d" % dim, case["kind"]) if case["sens"] == 0.5 else pcls(kind=case["kind"])   # positional / keyword / default name
+        got_name, got_kind = pipe.name, pipe.kind
+    ctx.check(got_name == ("row-%d" % dim if case["sens"] == 0.5 else "RayTransferPipeline%dD" % dim) and got_kind == case["kind"].lower(),
+              "pipeline-attributes", lambda: "name %r, kind %r" % (got_name, got_kind))
+    handed = []
     pkind, samples, sens = case["kind"].lower(), case["samples"], case["sens"]
     common = dict(spectral_bins=1, min_wavelength=wl[0], max_wavelength=wl[0] + wl[1], pixel_samples=samples, quiet=True)
     place = obj["place"]
@@ -907,6 +938,7 @@ def run_pipe(case, ctx):
             obs.spectral_bins = rt.bins
             obs.observe()
             got = np.array(pipe.matrix, dtype=float)
+            handed.append((pipe.matrix, got))
         # ---- expectation: the same rays traced directly, in the current configuration
         rows = np.array([_trace_world(ctx, world, nbins, ow, uw, wl) for ow, uw in wrays])
         want = rows * (sens if pkind == "power" else 1.0)
@@ -924,6 +956,8 @@ def run_pipe(case, ctx):
             if prev is not None and (prev.shape != want.shape or not np.allclose(prev, want, rtol=0, atol=atol)):
                 differ += 1
             prev = want
+    ctx.check(all(np.array_equal(np.array(ref), cp) for ref, cp in handed), "pipeline-matrix-intact",
+              "a matrix handed out by an earlier observe() was modified by a later one")
     ctx.nt(nonzero >= 2 and differ >= 1)
 
 
